@@ -725,6 +725,19 @@ impl FinishedSession {
             return Ok(Some(self));
         }
 
+        // A stale changeset must be rejected before its delta is recorded in the rollback log.
+        // The root cannot change while the write guard is held.
+        {
+            let shared = nomt.shared.lock();
+            if shared.root != self.prev_root {
+                anyhow::bail!(
+                    "Changeset no longer valid (expected previous root {:?}, got {:?})",
+                    self.prev_root,
+                    shared.root
+                );
+            }
+        }
+
         if let Some(rollback_delta) = self.rollback_delta {
             // UNWRAP: if rollback_delta is `Some`, then rollback must be also `Some`.
             let rollback = nomt.store.rollback().unwrap();
